@@ -449,7 +449,7 @@ class Package:
     CLASS_FALLBACKS = {
         "heapq._KeyIter": ("heapq.merge", 0),
         "asynctools._BorrowedAsyncIterator": ("asynctools.borrow", 0),
-        "asynctools._ScopedAsyncIteratorContext": ("asynctools.scoped_iter", 0),
+        "asynctools._ScopedAsyncIteratorContext": ("asynctools.scoped_iter", 0, "__aenter__"),
         "asynctools._ScopedAsyncIterator": ("asynctools._ScopedAsyncIteratorContext.__aenter__", 0),
         "functools._FutureCachedPropertyValue": ("functools.CachedProperty.__get__", 0),
         "contextlib._AsyncGeneratorContextManager": ("contextlib.contextmanager", 0),
@@ -471,7 +471,8 @@ class Package:
         spec = self.CLASS_FALLBACKS.get(short)
         if spec is None or _depth > 3:
             return None
-        user, index = spec
+        user, index = spec[0], spec[1]
+        must_have = spec[2] if len(spec) > 2 else None
         try:
             uu = self._unit_or_none(user, _depth + 1)
         except AnalysisError:
@@ -486,7 +487,8 @@ class Package:
             res = self.resolve_global(m, n.id)
             if res.kind == "lib" and isinstance(res.node, ast.ClassDef):
                 info = self.lib_class(res.qual)
-                if info is not None and info.module is m and info.name.startswith("_") and info not in found:
+                if info is not None and info.module is m and info.name.startswith("_") and info not in found \
+                        and (must_have is None or must_have in info.methods):
                     found.append(info)
         return found[index] if index < len(found) else None
 
